@@ -105,7 +105,7 @@ impl Env {
 }
 
 pub trait Property {
-    type Spec: Clone + std::fmt::Debug + Serialize + DeserializeOwned + 'static;
+    type Spec: Clone + std::fmt::Debug + Serialize + DeserializeOwned + Send + Sync + 'static;
 
     fn id() -> &'static str;
     fn level() -> &'static str {
@@ -143,11 +143,16 @@ pub trait Property {
     fn risky() -> bool {
         false
     }
-    /// bound on shrink iterations (expensive cases want fewer)
     /// one case in `n` is evaluated twice in a row (0: never); see `eval`
     fn repeat_every() -> u64 {
         4
     }
+    /// The check touches no process-global state of its own (working directory, injected clock),
+    /// so a sample of passing cases may be re-evaluated from several threads at once.
+    fn concurrent() -> bool {
+        false
+    }
+    /// bound on shrink iterations (expensive cases want fewer)
     fn max_shrink_iters() -> u32 {
         4096
     }
@@ -529,6 +534,7 @@ pub fn run_worker<P: Property>(args: WorkerArgs) {
     let mine = total / args.workers as u64
         + if (args.worker as u64) < total % args.workers as u64 { 1 } else { 0 };
     let strategy = P::strategy(args.tier);
+    let mut pool: Vec<P::Spec> = vec![];
     let mut remaining = mine;
     let mut round = 0u32;
     // Several rounds: after a violation is found and shrunk, continue with the
@@ -552,6 +558,7 @@ pub fn run_worker<P: Property>(args: WorkerArgs) {
         let stc = RefCell::new(&mut st);
         let envc = RefCell::new(&mut env);
         let harness_err: RefCell<Option<String>> = RefCell::new(None);
+        let poolc = RefCell::new(&mut pool);
         let result = runner.run(&strategy, |spec| {
             let mut env = envc.borrow_mut();
             if risky {
@@ -570,6 +577,12 @@ pub fn run_worker<P: Property>(args: WorkerArgs) {
                 done.set(done.get() + 1);
                 st.rep.generated += 1;
                 st.record(&spec, &out);
+                if out.failures.is_empty() && out.nontrivial.is_some() && done.get() % 7 == 0 {
+                    let mut pool = poolc.borrow_mut();
+                    if pool.len() < CONCURRENT_POOL {
+                        pool.push(spec.clone());
+                    }
+                }
             }
             let mut bad: Option<&Failure> = None;
             for f in &out.failures {
@@ -594,6 +607,7 @@ pub fn run_worker<P: Property>(args: WorkerArgs) {
         });
         drop(stc);
         drop(envc);
+        drop(poolc);
         remaining = remaining.saturating_sub(done.get().max(1));
         match result {
             Ok(()) => break,
@@ -630,6 +644,35 @@ pub fn run_worker<P: Property>(args: WorkerArgs) {
             }
         }
     }
+    // 4. concurrent use: a sample of cases that passed sequentially is evaluated again from
+    // several threads at once (each thread walks the sample from a different offset, so different
+    // inputs are in flight together). The property must hold for each of them all the same.
+    if P::concurrent() && pool.len() >= CONCURRENT_THREADS && st.rep.violations.is_empty() && st.rep.harness_errors.is_empty() {
+        let results = concurrent_phase::<P>(&pool, &env);
+        st.rep.evaluations += (pool.len() * CONCURRENT_THREADS) as u64;
+        *st.rep.classes.entry("evaluated-concurrently".into()).or_insert(0) += (pool.len() * CONCURRENT_THREADS) as u64;
+        for (idx, r) in results {
+            match r {
+                Err(e) => st.rep.harness_errors.push(format!("concurrent phase: {}", e)),
+                Ok(fails) => {
+                    for f in fails {
+                        let sig = format!("{}/concurrent-use", f.signature);
+                        if known.known.contains_key(&sig) || known.known.contains_key(&f.signature) {
+                            *st.rep.known_hits.entry(sig).or_insert(0) += 1;
+                        } else if st.rep.violations.len() < 5 && !st.rep.violations.iter().any(|v| v.signature == sig) {
+                            st.rep.violations.push(FoundViolation {
+                                signature: sig,
+                                observed: format!("while {} threads were evaluating different cases at once: {}", CONCURRENT_THREADS, f.observed),
+                                expected: f.expected.clone(),
+                                spec: serde_json::to_value(&pool[idx]).unwrap_or(serde_json::Value::Null),
+                                origin: format!("concurrent phase (worker {}, the case passed when evaluated alone)", args.worker),
+                            });
+                        }
+                    }
+                }
+            }
+        }
+    }
     if remaining == 0 || round < 6 {
         st.rep.completed = true;
     }
@@ -640,6 +683,43 @@ pub fn run_worker<P: Property>(args: WorkerArgs) {
     st.rep.wall_s = start.elapsed().as_secs_f64();
     let bytes = serde_json::to_vec(&st.rep).expect("serialise report");
     std::fs::write(&args.out, bytes).expect("write report");
+}
+
+const CONCURRENT_POOL: usize = 48;
+const CONCURRENT_THREADS: usize = 4;
+
+fn concurrent_phase<P: Property>(pool: &[P::Spec], env: &Env) -> Vec<(usize, Result<Vec<Failure>, String>)> {
+    let barrier = std::sync::Barrier::new(CONCURRENT_THREADS);
+    let mut all = vec![];
+    std::thread::scope(|scope| {
+        let mut handles = vec![];
+        for t in 0..CONCURRENT_THREADS {
+            let barrier = &barrier;
+            let scratch = env.scratch.join(format!("conc-{}", t));
+            let (tier, seed, worker, workers) = (env.tier, env.seed, env.worker, env.workers);
+            handles.push(scope.spawn(move || {
+                let mut tenv = Env::new(tier, seed, worker, workers, scratch);
+                let mut out = vec![];
+                barrier.wait();
+                let n = pool.len();
+                for i in 0..n {
+                    let idx = (i + t * n / CONCURRENT_THREADS) % n;
+                    let r = eval_once::<P>(&pool[idx], &mut tenv).map(|o| o.failures);
+                    if !matches!(&r, Ok(f) if f.is_empty()) {
+                        out.push((idx, r));
+                    }
+                }
+                out
+            }));
+        }
+        for h in handles {
+            match h.join() {
+                Ok(v) => all.extend(v),
+                Err(_) => all.push((0, Err("thread panicked outside a guarded section".into()))),
+            }
+        }
+    });
+    all
 }
 
 /// Replay one spec file in strict mode. Returns failures.
